@@ -75,7 +75,7 @@ def gen_us(rng):
     return rng.randrange(ts.US_DAY)
 
 
-def gen_life(rng, first):
+def gen_life(rng, first, tier="quick"):
     life = {
         "policy": rng.choice(["pass", "pass", "warning", "warning", "error", "error", "strict"]),
         "dbname": rng.choice([None, None, None, "default", "zero", "flaky", "raising", "nosuchdb"]),
@@ -87,7 +87,7 @@ def gen_life(rng, first):
         kind = rng.choice(["missing", "eacces", "eio", "empty", "torn_line", "torn_mid", "garbled_digits", "garbled_text"])
         life["fault"] = {"kind": kind, "file": rng.choice(FILES), "line": rng.randrange(16000), "col": rng.randrange(58, 68), "late_arrival_after": rng.choice([None, None, 3])}
     ops = []
-    for _ in range(rng.randint(6, 14)):
+    for _ in range(rng.randint(6, 14) if tier != "thorough" else rng.randint(10, 28)):
         k = rng.choice(["date"] * 6 + ["twin", "twin", "arith", "arith", "order", "now", "range", "range", "config", "clone", "clone", "other_db"])
         op = {"op": k}
         if k == "date":
@@ -132,9 +132,9 @@ def gen_life(rng, first):
 
 
 def gen_plan(rng, tier, i):
-    lives = [gen_life(rng, True)]
-    for _ in range(rng.choice([0, 0, 1, 1, 2])):
-        nxt = gen_life(rng, False)
+    lives = [gen_life(rng, True, tier)]
+    for _ in range(rng.choice([0, 0, 1, 1, 2]) if tier != "thorough" else rng.choice([0, 1, 2, 3])):
+        nxt = gen_life(rng, False, tier)
         nxt["heal_before"] = rng.random() < 0.6
         if nxt["heal_before"]:
             nxt["fault"] = None
